@@ -12,7 +12,7 @@ CFG = dict(
     level_note='Trusted: Coq kernel, harness printers/parsers of reply messages. Statements are restricted to one binary relation, variables '
                'X/Y, integer/string constants and one comparison in the body; the match query itself (the Datalog engine) is modelled by its '
                'specification (all satisfying bindings) and checked by correspondence, not proved (C01 covers query evaluation).',
-    bin='c32', n_quick=400, n_thorough=6000,
+    bin='c32', n_quick=400, n_thorough=2000,
     corr_name='Model/StoreStmt.v vs Handler::query_program write statements',
     rule='corpus (swap update on {(1,2),(2,1)}, chained updates, in-batch duplicates / duplicate insert / absent delete / bulk delete with repeats, '
          'conditional deletes with constant and repeated-variable heads, row limit below the match count) + random histories of 2-12 statements '
